@@ -22,6 +22,7 @@ from ..selftest import Twin
 from ._engine import CL, CL_REL, RUNNER, branch_for, param
 
 EXPLANATION = __doc__.split("\n\n", 1)[1]
+TECHNIQUE = 'static analysis: affine index-base agreement along the producer chain (AST evaluation of index-like sub-expressions for retries 1..5), delay plumbing def-use'
 TRUSTED = ["CPython ast", "heapq ordering"]
 RP = "workflows.retry_policy"
 RP_REL = "packages/llama-index-workflows/src/workflows/retry_policy.py"
